@@ -25,7 +25,7 @@ CHUNK = 60
 WORLD_CAP_S = 30
 REAL_COMPONENTS = ['pysmi.writer.localfile.FileWriter', 'pysmi.writer.pyfile.PyFileWriter', 'pysmi.compiler.MibCompiler (dry-run / writeMibs=False worlds)',
                    'kernel filesystem semantics (tmpfs): rename, O_EXCL, unlink', 'py_compile (real, unless it is the faulted call)']
-STUB_COMPONENTS = ['errno / short-write / kill outcomes of os.* calls (injected)', 'tempfile.mkstemp naming (deterministic counter)', 'thread scheduling (baton passing, PRNG-chosen)',
+STUB_COMPONENTS = ['errno / short-write / kill outcomes of os.* calls and of file-object write/close (injected)', 'process locale of the environment-variant child (POSIX locale, UTF-8 mode off)', 'tempfile.mkstemp naming (deterministic counter)', 'thread scheduling (baton passing, PRNG-chosen)',
                    'parser/codegen in compile() dry-run worlds: real; sources: in-memory']
 RULE = ('sweep: fault-free run of each base scenario enumerates its interposed calls; one world per (call, applicable action) and per (call, kill). '
         'seeded: 1-4 putData operations with explicit/rate faults, or 2-3 concurrent writer threads under a seeded schedule. '
